@@ -40,8 +40,11 @@ let () =
         match split_ws line with
         | [cf; df; did; cid] ->
           let r = run_case (bytes_of_tok cf) (opt_of_tok df) (opt_of_tok did) (opt_of_tok cid) in
+          (* eight path fields, then the lookup(module, kind) == direct builder flag *)
+          let fields = List.filteri (fun i _ -> i < 8) r and flag = List.nth r 8 in
           print_endline (String.concat ";" (List.map (fun (tag, p) ->
-            match int_of_z tag with 0 -> "N" | 1 -> hex_of p | _ -> "P") r))
+            match int_of_z tag with 0 -> "N" | 1 -> hex_of p | _ -> "P") fields)
+            ^ "|L" ^ string_of_int (int_of_z (fst flag)))
         | _ -> print_endline "E;;bad case line"
       end
     done
